@@ -8,6 +8,7 @@ import PhotVerif.Driver.Lazy
 import PhotVerif.Driver.Catalog
 import PhotVerif.Driver.Peaks
 import PhotVerif.Driver.Render
+import PhotVerif.Driver.ApStats
 namespace PhotVerif.Driver
 
 /-- driver state: the objects that live across lines (state-machine models) -/
@@ -15,7 +16,7 @@ structure DState where
   segm : Option PhotVerif.Model.Segm.State := none
 
 def handlers : List (String → List String → Option String) :=
-  [handleGeom, handleMask, handleApSum, handleDetect, handleDeblend, handleLazy, handleCatalog, handlePeaks, handleRender]
+  [handleGeom, handleMask, handleApSum, handleDetect, handleDeblend, handleLazy, handleCatalog, handlePeaks, handleRender, handleApStats]
 
 def dispatch (st : DState) (line : String) : DState × String :=
   match tokens line with
